@@ -25,6 +25,39 @@ failures:  a read() whose input or tag_filter raises part-way, a qread() of a tr
            on the same object: the exception must propagate and the object must be consistent
            (unchanged, or a line-prefix collection / the new collection: spec ReadFails / QReadFails;
            negative controls NonAtomicRead, NonAtomicQread -> TLC reports Inverse violated).
+API surface (notes/API_SURFACE.md) -- every public way of loading, querying, deriving and writing;
+R = replay of TLC's LTS, T = recorded traces validated by TLC, S = size-stress replay, X = cross-object
+differential at the end of replayed behaviours; all in the quick tier on rotating samples, variants
+are mixed inside one history (the variant is drawn per call):
+  entry point / variant                                             exercised by
+  ----------------------------------------------------------------  -----------------------------------
+  DB.read(input_data, tag_filter): list of lines / iterator /        R T S  (via list|iter|gen|stringio|
+    generator / io.StringIO / real text file / last line without       file|nonl; positional, keyword
+    newline / tag_filter omitted, positional, keyword                   and omitted tag_filter)
+  read_tag_database, read_tag_database_reversed,                     R T X  (via fn|fn_rev|fn_bw: a new DB
+    read_tag_database_both_ways(+tag_filter pos/kw), reverse(db)        filled by the module readers;
+    and readTagDatabase* aliases; parse_tags (under all of them)        X: output() text read back)
+  DB.qwrite / DB.qread: io.BytesIO and real binary file              R T S  (qread into the same object,
+                                                                        pickle copy into a new one)
+  pickle.dumps/loads(db), copy.deepcopy(db)                          R T    (copy variants objpickle|deepcopy)
+  copy.copy(db)                                                      out of domain: Python's shallow copy
+                                                                        shares both dictionaries by definition
+  DB.dump(), output(db), DB.dump_reverse()/dumpReverse() then read   R T S  (actions DumpRead / DumpReverseRead:
+                                                                        keys without pairs are not written)
+  DB.insert(pkg, tags) positional / keyword                          R T
+  DB.copy, reverse_copy/reverseCopy, reverse                         R T S  (+ retained source, kept aside)
+  choose_packages(_copy), filter_packages(_copy),                    R T S  snake_case and camelCase alias,
+    filter_packages_tags(_copy), filter_tags(_copy), facet_collection   positional and keyword argument
+  has_package, has_tag, tags_of_package, packages_of_tag, card,      R T S  (card, discriminance have no alias)
+    discriminance, package_count, tag_count, iter_packages, iter_tags,  snake_case / alias, positional /
+    iter_packages_tags, iter_tags_packages (+ camelCase aliases)        keyword
+  tags_of_packages / packages_of_tags (+aliases)                     executed in every query round; value out
+                                                                        of domain (docstring "all", code unions)
+  relevance_index_function / relevanceIndexFunction                  X      (card**2 / card with TLC's cards)
+  correlations(), ideal_tagset / idealTagset                         X      (same answers on a second object
+                                                                        loaded through another entry point)
+  failing read()/qread()/other raising calls                         R T S  (see "failures")
+  dunder protocols (len, in, iter, ==)                               not defined by DB
 known finding: a replayed behaviour that diverges from the (deviation-off) model is recorded as a
            trace and handed to TLC with DEV=1 -- only while C20-insert-chars is open.  If TLC
            explains it with the deviation-on operators, every deviation step is counted with
@@ -120,14 +153,15 @@ class Conc:
 # ------------------------------------------------------------------ driving the real object
 
 # every public method of DB that has a deprecated camelCase alias (the alias is the same action)
-ALIAS = {"facet_collection": "facetCollection", "reverse_copy": "reverseCopy", "choose_packages": "choosePackages",
+ALIAS = {"dump_reverse": "dumpReverse", "facet_collection": "facetCollection", "reverse_copy": "reverseCopy", "choose_packages": "choosePackages",
          "choose_packages_copy": "choosePackagesCopy", "filter_packages": "filterPackages",
          "filter_packages_copy": "filterPackagesCopy", "filter_packages_tags": "filterPackagesTags",
          "filter_packages_tags_copy": "filterPackagesTagsCopy", "filter_tags": "filterTags",
          "filter_tags_copy": "filterTagsCopy", "has_package": "hasPackage", "has_tag": "hasTag",
          "tags_of_package": "tagsOfPackage", "packages_of_tag": "packagesOfTag", "iter_packages": "iterPackages",
          "iter_tags": "iterTags", "iter_packages_tags": "iterPackagesTags", "iter_tags_packages": "iterTagsPackages",
-         "package_count": "packageCount", "tag_count": "tagCount"}
+         "package_count": "packageCount", "tag_count": "tagCount", "tags_of_packages": "tagsOfPackages",
+         "packages_of_tags": "packagesOfTags", "ideal_tagset": "idealTagset"}
 
 
 def meth(obj, name, alias):
@@ -144,26 +178,86 @@ def quiet_deprecations():
     warnings.filterwarnings("ignore", category=DeprecationWarning)
 
 
+WORKDIR = [None]          # scratch directory of the run (real files are created there)
+
+
+def _binary(real):
+    import tempfile
+    return tempfile.TemporaryFile("w+b", dir=WORKDIR[0]) if real else io.BytesIO()
+
+
+class _text_input(object):
+    """the documented input forms of read(): list of lines, iterator, generator, text file objects"""
+
+    def __init__(self, via, text):
+        self.via, self.text, self.f = via, text, None
+
+    def __enter__(self):
+        import tempfile
+        if self.via == "list":
+            return self.text
+        if self.via == "gen":
+            return (line for line in self.text)
+        if self.via == "stringio":
+            return io.StringIO("".join(self.text))
+        if self.via == "file":
+            self.f = tempfile.TemporaryFile("w+", dir=WORKDIR[0], encoding="utf-8", newline="")
+            self.f.write("".join(self.text))
+            self.f.seek(0)
+            return self.f
+        return iter(self.text)
+
+    def __exit__(self, *exc):
+        if self.f is not None:
+            self.f.close()
+        return False
+
+
 def do_call(cur, st):
     """one public call on the current object; returns (new current object, exception name or '')"""
     from debian import debtags
     op = st["op"]
     al = st.get("alias", False)
     try:
+        kw = st.get("kw", False)                      # keyword instead of positional arguments
+        via = st.get("via", "")
         if op == "qread":                               # a successful qread() INTO the current object
             other = debtags.DB()
             other.read(iter(st["text"]))
-            buf = io.BytesIO()
-            other.qwrite(buf)
-            buf.seek(0)
-            cur.qread(buf)
+            with _binary(via == "file") as f:
+                other.qwrite(f)
+                f.seek(0)
+                cur.qread(f)
             return cur, ""
         if op == "read":
             drop = set(st["drop"])
-            cur.read(iter(st["text"]), (lambda t: t not in drop) if st["usefilter"] else None)
+            filt = (lambda t: t not in drop) if st["usefilter"] else None
+            text = list(st["text"])
+            if via == "nonl" and text and text[-1].endswith("\n") and text[-1].strip():
+                text[-1] = text[-1][:-1]                # the last line of a file need not end in a newline
+            if via in ("fn", "fn_rev", "fn_bw"):        # the module-level readers fill a NEW object
+                new = debtags.DB()
+                if via == "fn_bw":
+                    f = getattr(debtags, "readTagDatabaseBothWays" if al else "read_tag_database_both_ways")
+                    new.db, new.rdb = (f(iter(text), tag_filter=filt) if kw else f(iter(text), filt))
+                else:
+                    new.db = getattr(debtags, "readTagDatabase" if al else "read_tag_database")(iter(text))
+                    new.rdb = (debtags.reverse(new.db) if via == "fn_rev" else
+                               getattr(debtags, "readTagDatabaseReversed" if al else "read_tag_database_reversed")(text))
+                return new, ""
+            with _text_input(via, text) as src:
+                if kw:
+                    cur.read(input_data=src, tag_filter=filt)
+                elif filt is None and via != "list":
+                    cur.read(src)
+                else:
+                    cur.read(src, filt)
             return cur, ""
         if op == "insert":
-            cur.insert(st["a"], set(st["s"]))
+            if kw:
+                cur.insert(pkg=st["a"], tags=set(st["s"]))
+            else:
+                cur.insert(st["a"], set(st["s"]))
             return cur, ""
         if op == "reverse":
             return cur.reverse(), ""
@@ -171,12 +265,30 @@ def do_call(cur, st):
             return meth(cur, "reverse_copy", al)(), ""
         if op == "copy":
             return cur.copy(), ""
-        if op == "pickle":
-            buf = io.BytesIO()
-            cur.qwrite(buf)
-            buf.seek(0)
+        if op == "pickle":                              # independent copies through the pickle / copy protocols
+            if via == "objpickle":
+                return pickle.loads(pickle.dumps(cur)), ""
+            if via == "deepcopy":
+                import copy
+                return copy.deepcopy(cur), ""
             new = debtags.DB()
-            new.qread(buf)
+            with _binary(via == "file") as f:
+                cur.qwrite(f)
+                f.seek(0)
+                new.qread(f)
+            return new, ""
+        if op in ("dumpread", "dumprevread"):           # the printed text database read into a new DB
+            import contextlib
+            out = io.StringIO()
+            with contextlib.redirect_stdout(out):
+                if op == "dumprevread":
+                    meth(cur, "dump_reverse", al)()
+                elif via == "output":
+                    debtags.output(cur.db)
+                else:
+                    cur.dump()
+            new = debtags.DB()
+            new.read(io.StringIO(out.getvalue()) if via != "lines" else out.getvalue().splitlines(True))
             return new, ""
         if op == "facet":
             return meth(cur, "facet_collection", al)(), ""
@@ -232,21 +344,21 @@ def do_call(cur, st):
             return cur, ""
         S = set(st["s"])
         if op == "choose":
-            return meth(cur, "choose_packages", al)(list(st["s"])), ""
+            return (meth(cur, "choose_packages", al)(package_iter=list(st["s"])) if kw else meth(cur, "choose_packages", al)(list(st["s"]))), ""
         if op == "choose_copy":
-            return meth(cur, "choose_packages_copy", al)(list(st["s"])), ""
+            return (meth(cur, "choose_packages_copy", al)(package_iter=list(st["s"])) if kw else meth(cur, "choose_packages_copy", al)(list(st["s"]))), ""
         if op == "filter_p":
-            return meth(cur, "filter_packages", al)(lambda p: p in S), ""
+            return (meth(cur, "filter_packages", al)(package_filter=lambda p: p in S) if kw else meth(cur, "filter_packages", al)(lambda p: p in S)), ""
         if op == "filter_p_copy":
-            return meth(cur, "filter_packages_copy", al)(lambda p: p in S), ""
+            return (meth(cur, "filter_packages_copy", al)(filter_data=lambda p: p in S) if kw else meth(cur, "filter_packages_copy", al)(lambda p: p in S)), ""
         if op == "filter_pt":
-            return meth(cur, "filter_packages_tags", al)(lambda pt: pt[0] in S), ""
+            return (meth(cur, "filter_packages_tags", al)(package_tag_filter=lambda pt: pt[0] in S) if kw else meth(cur, "filter_packages_tags", al)(lambda pt: pt[0] in S)), ""
         if op == "filter_pt_copy":
-            return meth(cur, "filter_packages_tags_copy", al)(lambda pt: pt[0] in S), ""
+            return (meth(cur, "filter_packages_tags_copy", al)(package_tag_filter=lambda pt: pt[0] in S) if kw else meth(cur, "filter_packages_tags_copy", al)(lambda pt: pt[0] in S)), ""
         if op == "filter_t":
-            return meth(cur, "filter_tags", al)(lambda t: t in S), ""
+            return (meth(cur, "filter_tags", al)(tag_filter=lambda t: t in S) if kw else meth(cur, "filter_tags", al)(lambda t: t in S)), ""
         if op == "filter_t_copy":
-            return meth(cur, "filter_tags_copy", al)(lambda t: t in S), ""
+            return (meth(cur, "filter_tags_copy", al)(tag_filter=lambda t: t in S) if kw else meth(cur, "filter_tags_copy", al)(lambda t: t in S)), ""
     except Exception as e:            # an exception of the code under test is an observation
         return cur, type(e).__name__
     raise core.MachineryError("unknown op %r" % (op,))
@@ -270,22 +382,27 @@ def pairs(d):
     return {(k, m) for k, v in d.items() for m in v}
 
 
-def ask(cur, names, alias=False):
+def ask(cur, names, alias=False, kw=False):
     """all query methods (through their deprecated aliases when alias); returns (answers dict,
     exception name or '')"""
     try:
         m = lambda n: meth(cur, n, alias)       # noqa: E731
+        one = (lambda n, k, v: m(n)(**{k: v})) if kw else (lambda n, k, v: m(n)(v))       # noqa: E731
         a = dict(pc=m("package_count")(), tc=m("tag_count")(),
                  qn=list(names),
-                 qtags=[frozenset(m("tags_of_package")(n)) for n in names],
-                 qpkgs=[frozenset(m("packages_of_tag")(n)) for n in names],
-                 qcard=[cur.card(n) for n in names],
-                 qhasp=[m("has_package")(n) for n in names],
-                 qhast=[m("has_tag")(n) for n in names],
+                 qtags=[frozenset(one("tags_of_package", "pkg", n)) for n in names],
+                 qpkgs=[frozenset(one("packages_of_tag", "tag", n)) for n in names],
+                 qcard=[(cur.card(tag=n) if kw else cur.card(n)) for n in names],
+                 qdisc=[(cur.discriminance(tag=n) if kw else cur.discriminance(n)) for n in names],
+                 qhasp=[one("has_package", "pkg", n) for n in names],
+                 qhast=[one("has_tag", "tag", n) for n in names],
                  itp=list(m("iter_packages")()), itt=list(m("iter_tags")()),
                  itpt=[(k, frozenset(v)) for k, v in m("iter_packages_tags")()],
                  ittp=[(k, frozenset(v)) for k, v in m("iter_tags_packages")()])
-        for c in a["qcard"] + [a["pc"], a["tc"]]:
+        if names:       # union queries: executed (docstring says "all", the code unions: value out of domain)
+            set(m("tags_of_packages")(list(names)))
+            set(m("packages_of_tags")(list(names)))
+        for c in a["qcard"] + a["qdisc"] + [a["pc"], a["tc"]]:
             if not isinstance(c, int) or isinstance(c, bool):
                 return None, "TypeError(count %r)" % (c,)
         for b in a["qhasp"] + a["qhast"]:
@@ -310,7 +427,7 @@ def enc_dict(d):
     return [[enc(k), enc_set(d[k])] for k in sorted(d)]
 
 
-COPY_OPS = ("copy", "reverse_copy", "pickle")
+COPY_OPS = ("copy", "reverse_copy", "pickle", "dumpread", "dumprevread")
 FAIL_OPS = ("read_fail", "qread_fail", "probe")
 
 
@@ -347,10 +464,10 @@ def event_of(st, exc, db, rdb, answers=None, source=None, current=None):
     if op in ("q", "qs") or current is not None:
         a = answers
         if a is None:
-            a = dict(pc=0, tc=0, qn=[], qtags=[], qpkgs=[], qcard=[], qhasp=[], qhast=[], itp=[], itt=[], itpt=[], ittp=[])
+            a = dict(pc=0, tc=0, qn=[], qtags=[], qpkgs=[], qcard=[], qdisc=[], qhasp=[], qhast=[], itp=[], itt=[], itpt=[], ittp=[])
         e.update(pc=a["pc"], tc=a["tc"], qn=[enc(n) for n in a["qn"]],
                  qtags=[enc_set(x) for x in a["qtags"]], qpkgs=[enc_set(x) for x in a["qpkgs"]],
-                 qcard=a["qcard"], qhasp=a["qhasp"], qhast=a["qhast"],
+                 qcard=a["qcard"], qdisc=a["qdisc"], qhasp=a["qhasp"], qhast=a["qhast"],
                  itp=[enc(n) for n in a["itp"]], itt=[enc(n) for n in a["itt"]],
                  itpt=[[enc(k), enc_set(v)] for k, v in a["itpt"]],
                  ittp=[[enc(k), enc_set(v)] for k, v in a["ittp"]])
@@ -368,7 +485,7 @@ def execute(plan):
         current = None
         shown = None
         if st["op"] == "q":
-            answers, exc = ask(cur, st["names"], st.get("alias", False))
+            answers, exc = ask(cur, st["names"], st.get("alias", False), st.get("kw", False))
         elif st["op"] == "qs":                 # the query methods of the retained source of the last copy
             if srcobj is None:
                 continue
@@ -413,13 +530,19 @@ def execute(plan):
 def describe(st):
     op = st["op"]
     if op == "read":
-        return "read(%r%s)" % ("".join(st["text"]), ", tag_filter=not in %r" % (sorted(st["drop"]),) if st["usefilter"] else "")
+        return "read(%s%s)%s" % (short("".join(st["text"])), ", tag_filter=not in %r" % (sorted(st["drop"]),) if st["usefilter"] else "",
+                                 " [via %s%s]" % (st.get("via", "iter"), ", keywords" if st.get("kw") else "") if st.get("via") or st.get("kw") else "")
     if op == "insert":
         return "insert(%r, %r)" % (st["a"], sorted(st["s"]))
     if op == "qread":
         return "qread(pickle of %r)" % "".join(st["text"])
     if op == "qs":
         return "queries of the copied source"
+    if op in ("dumpread", "dumprevread"):
+        return "%s() printed and read() again [%s]" % (("dumpReverse" if st.get("alias") else "dump_reverse") if op == "dumprevread"
+                                                        else ("output(db)" if st.get("via") == "output" else "dump"), st.get("via"))
+    if op == "pickle" and st.get("via"):
+        return "independent copy via %s" % st["via"]
     if op == "read_fail":
         return "read(%r) FAILING %s" % ("".join(st["text"]), "in the input after %d lines" % st["m"] if st["mode"] == "source"
                                         else "in tag_filter at its call %d" % st["fcall"])
@@ -470,6 +593,12 @@ def read_text(rng, lines):
     return out, [(sorted(p), sorted(t)) for p, t in groups]
 
 
+# input forms of read(): list of lines, iterator, generator, text file objects, last line without newline;
+# "fn*" = the module-level readers / reverse() filling a new object
+READ_VIAS = ("iter", "list", "gen", "stringio", "file", "nonl", "fn_bw")
+INPLACE_VIAS = ("iter", "list", "gen", "stringio", "file", "nonl")
+
+
 def concretize_step(e, conc, rng, junk):
     """one concrete call for a reference edge; where several methods implement the reference
     transition (Debtags.tla: variants) one of them is chosen"""
@@ -479,11 +608,15 @@ def concretize_step(e, conc, rng, junk):
         drop = conc.names(e["s"])
         text, glines = read_text(rng, lines)
         if not drop and rng.random() < 0.3:             # the same collection through qwrite/qread
-            return {"op": "qread", "text": text, "lines": glines}
-        return {"op": "read", "text": text, "lines": glines, "drop": sorted(drop),
-                "usefilter": bool(drop) or rng.random() < 0.5}
+            return {"op": "qread", "text": text, "lines": glines, "via": rng.choice(["", "", "file"])}
+        usefilter = bool(drop) or rng.random() < 0.5
+        vias = list(READ_VIAS) + ([] if usefilter else ["fn", "fn_rev"])
+        return {"op": "read", "text": text, "lines": glines, "drop": sorted(drop), "usefilter": usefilter,
+                "via": rng.choice(vias), "kw": rng.random() < 0.3, "alias": rng.random() < 0.5}
     if op == "insert":
-        return {"op": "insert", "a": conc.name(e["a"]), "s": sorted(conc.names(e["s"]))}
+        return {"op": "insert", "a": conc.name(e["a"]), "s": sorted(conc.names(e["s"])), "kw": rng.random() < 0.3}
+    if op in ("dumpread", "dumprevread"):
+        return {"op": op, "via": rng.choice(["dump", "output", "lines"]), "alias": rng.random() < 0.5}
     if op in ("read_fails", "qread_fails"):
         # the line ORDER is part of the case (prefixes): no shuffling here
         glines = [(sorted(conc.names(ln["pkgs"])), sorted(conc.names(ln["tags"]))) for ln in e["lines"]]
@@ -496,25 +629,27 @@ def concretize_step(e, conc, rng, junk):
             st.update(mode="filter", fcall=1 + sum(len(t) for _, t in glines[:k]), want="ValueError")
         return st
     al = rng.random() < 0.5                             # through the deprecated camelCase alias
+    kwf = rng.random() < 0.3                            # keyword instead of positional arguments
     if op == "reverse":
         return {"op": rng.choice(["reverse", "reverse_copy"]), "alias": al}
     if op == "copy":
-        return {"op": rng.choice(["copy", "copy", "pickle"])}
+        v = rng.choice(["copy", "copy", "pickle", "pickle"])
+        return {"op": v, "via": rng.choice(["", "file", "objpickle", "deepcopy"]) if v == "pickle" else ""}
     if op == "facet":
         return {"op": "facet", "alias": al}
     S = sorted(conc.names(e["s"]))
     if op == "filter_t":
         extra = [j for j in junk if rng.random() < 0.3]
-        return {"op": rng.choice(["filter_t", "filter_t_copy"]), "s": sorted(set(S + extra)), "alias": al}
+        return {"op": rng.choice(["filter_t", "filter_t_copy"]), "s": sorted(set(S + extra)), "alias": al, "kw": kwf}
     if op == "restrict_p":
         present = conc.names(e["from"]["P"])
         absent = [j for j in junk if j not in present and rng.random() < 0.3]
         v = rng.choice(["choose", "choose", "choose_copy", "filter_p", "filter_p_copy", "filter_pt", "filter_pt_copy"])
         if v == "choose_copy":
-            return {"op": v, "s": S, "alias": al}
+            return {"op": v, "s": S, "alias": al, "kw": kwf}
         s = S + absent
         rng.shuffle(s)
-        return {"op": v, "s": s if v == "choose" else sorted(set(s)), "alias": al}
+        return {"op": v, "s": s if v == "choose" else sorted(set(s)), "alias": al, "kw": kwf}
     raise core.MachineryError("unknown edge op %r" % (op,))
 
 
@@ -545,12 +680,12 @@ def compare_queries(cur, table, conc, rng, junk, who=""):
     """verdict observables 2: the query methods answer like the reference (STATE table from TLC)"""
     names = [conc.name(n) for n in table["names"]]
     alias = rng.random() < 0.5
-    m = _compare_queries(cur, table, conc, junk, names, alias)
+    m = _compare_queries(cur, table, conc, junk, names, alias, rng.random() < 0.3)
     return None if m is None else "%s%s%s" % (who, "(through the deprecated aliases) " if alias else "", m)
 
 
-def _compare_queries(cur, table, conc, junk, names, alias):
-    a, exc = ask(cur, names + junk, alias)
+def _compare_queries(cur, table, conc, junk, names, alias, kw=False):
+    a, exc = ask(cur, names + junk, alias, kw)
     if exc:
         return "query methods raised %s" % exc
     if a["pc"] != table["pc"] or a["tc"] != table["tc"]:
@@ -564,6 +699,8 @@ def _compare_queries(cur, table, conc, junk, names, alias):
             return "packages_of_tag(%r) = %r, model says %r" % (n, sorted(a["qpkgs"][i]), sorted(ep))
         if a["qcard"][i] != table["card"][i]:
             return "card(%r) = %r, model says %r" % (n, a["qcard"][i], table["card"][i])
+        if a["qdisc"][i] != table["disc"][i]:
+            return "discriminance(%r) = %r, model says %r" % (n, a["qdisc"][i], table["disc"][i])
         if a["qhasp"][i] != table["hasP"][i]:
             return "has_package(%r) = %r, model says %r" % (n, a["qhasp"][i], table["hasP"][i])
         if a["qhast"][i] != table["hasT"][i]:
@@ -647,6 +784,68 @@ def replay_path(plan, exp, conc, rng, junk, deep):
         m = compare_state(derived, x["to"], conc, "the copy taken in step %d changed afterwards: " % step)
         if m:
             return n - 1, m
+    if n and not plan[-1].get("keep") and rng.random() < (1.0 if deep else 0.25):
+        m = secondary_entry_points(cur, exp[-1], conc, rng)
+        if m:
+            return n - 1, "after step %d %s: %s" % (n, describe(plan[-1]), m)
+    return None
+
+
+def scoring(db, tags, alias):
+    """the scoring helpers that are functions of the two indexes: correlations() and ideal_tagset()"""
+    out = []
+    try:
+        out.append(("correlations", sorted((a, b, round(c, 9)) for a, b, c in db.correlations())))
+    except Exception as e:
+        out.append(("correlations", type(e).__name__))
+    try:
+        out.append(("ideal_tagset", sorted(meth(db, "ideal_tagset", alias)(list(tags)))))
+    except Exception as e:
+        out.append(("ideal_tagset", type(e).__name__))
+    return out
+
+
+def secondary_entry_points(cur, x, conc, rng):
+    """entry points whose expectation is not a model state of its own:
+    * relevance_index_function(full, sub)(tag) = sub.card(tag)**2 / full.card(tag) with the cards of TLC's table;
+    * correlations() / ideal_tagset() must give the same on a second object holding the same
+      collection that was loaded through another entry point (dump() text, module readers)."""
+    from debian import debtags
+    import contextlib
+    table = x["table"]
+    names = [conc.name(nm) for nm in table["names"]]
+    tags = [nm for i, nm in enumerate(names) if table["hasT"][i]]
+    out = io.StringIO()
+    with contextlib.redirect_stdout(out):
+        debtags.output(cur.db)
+    twin = debtags.DB()
+    lines = out.getvalue().splitlines(True)
+    try:
+        twin.db = debtags.read_tag_database(lines)
+        twin.rdb = debtags.read_tag_database_reversed(iter(lines))
+    except Exception as e:
+        return "read_tag_database*/output() round trip raised %s" % type(e).__name__
+    for t in tags:                       # a tag without packages cannot be written as text
+        if not table["card"][names.index(t)]:
+            twin.rdb.setdefault(t, set())
+    m = compare_state(twin, x["to"], conc, "output(db) read back through read_tag_database / read_tag_database_reversed: ")
+    if m:
+        return m
+    alias = rng.random() < 0.5
+    if scoring(cur, tags, alias) != scoring(twin, tags, not alias):
+        return "correlations()/ideal_tagset() differ between two objects holding the same collection: %s vs %s" % (
+            short(scoring(cur, tags, alias), 400), short(scoring(twin, tags, not alias), 400))
+    f = getattr(debtags, "relevanceIndexFunction" if alias else "relevance_index_function")
+    sub = twin.filter_packages(lambda p: True)
+    try:
+        rel = f(cur, sub)
+        for i, t in enumerate(names):
+            c = table["card"][i]
+            if table["hasT"][i] and c:
+                if abs(rel(t) - float(c * c) / float(c)) > 1e-9:
+                    return "relevance_index_function(db, same collection)(%r) = %r, model card %d" % (t, rel(t), c)
+    except Exception as e:
+        return "relevance_index_function raised %s" % type(e).__name__
     return None
 
 
@@ -751,7 +950,7 @@ def compare_big(cur, s, table, bc, rng, who=""):
     return None
 
 
-BIG_OPS = ("read", "reverse", "copy", "restrict_p", "filter_t", "read_fails", "qread_fails")
+BIG_OPS = ("read", "reverse", "copy", "restrict_p", "filter_t", "read_fails", "qread_fails", "dumpread", "dumprevread")
 
 
 def big_path(g, rng, length):
@@ -941,6 +1140,15 @@ def record_history(rng, nops, maxpk):
         plan.append(st)
         if st["op"] in ("q", "qs"):
             return
+        if st["op"] == "read":
+            st.setdefault("via", rng.choice(INPLACE_VIAS + ("fn_bw",) + (() if st["usefilter"] else ("fn", "fn_rev"))))
+            st.setdefault("alias", rng.random() < 0.5)
+        elif st["op"] == "qread":
+            st.setdefault("via", rng.choice(["", "file"]))
+        elif st["op"] == "pickle":
+            st.setdefault("via", rng.choice(["", "file", "objpickle", "deepcopy"]))
+        if st["op"] not in FAIL_OPS:
+            st.setdefault("kw", rng.random() < 0.25)
         if st.get("keep"):
             do_call(cur, st)               # observed by execute(); the current object stays
         else:
@@ -987,7 +1195,7 @@ def record_history(rng, nops, maxpk):
         step({"op": "read", "text": text, "lines": glines, "drop": sorted(drop), "usefilter": bool(drop) or rng.random() < 0.3})
     ops = (["insert"] * 8 + ["reverse", "reverse_copy", "copy", "pickle", "choose", "choose_copy", "filter_p",
            "filter_p_copy", "filter_pt", "filter_pt_copy", "filter_t", "filter_t_copy", "facet", "q", "q", "q",
-           "read_fail", "read_fail", "qread_fail", "probe", "reread", "reread", "qs"])
+           "read_fail", "read_fail", "qread_fail", "probe", "reread", "reread", "qs", "dumpread", "dumprevread"])
     KEEPABLE = ("reverse", "reverse_copy", "copy", "choose", "choose_copy", "filter_p", "filter_p_copy", "filter_pt",
                 "filter_pt_copy", "filter_t", "filter_t_copy", "facet")
 
@@ -1034,6 +1242,10 @@ def record_history(rng, nops, maxpk):
                 flipped = not flipped
         elif op in ("copy", "pickle"):
             step({"op": op, "keep": True} if keep and op == "copy" else {"op": op})
+        elif op in ("dumpread", "dumprevread"):
+            step({"op": op, "via": rng.choice(["dump", "output", "lines"]), "alias": al})
+            if op == "dumprevread":
+                flipped = not flipped
         elif op == "reread":
             # the SAME object gets new content (read / qread) after derivations were taken from it
             glines, text, _ = some_lines()
@@ -1041,7 +1253,8 @@ def record_history(rng, nops, maxpk):
                 step({"op": "qread", "text": text, "lines": glines})
             else:
                 drop = rng.sample(tg_pool, min(len(tg_pool), 1)) if rng.random() < 0.3 else []
-                step({"op": "read", "text": text, "lines": glines, "drop": sorted(drop), "usefilter": bool(drop) or rng.random() < 0.3})
+                step({"op": "read", "text": text, "lines": glines, "drop": sorted(drop), "usefilter": bool(drop) or rng.random() < 0.3,
+                      "via": rng.choice(INPLACE_VIAS)})
             flipped = faceted = False
         elif op == "qs":
             step({"op": "qs", "names": rng.sample(keys, min(len(keys), 3)) + rng.sample(rkeys, min(len(rkeys), 3)), "alias": al})
@@ -1152,6 +1365,7 @@ def strip_edge(e):
 def run(ctx):
     quick = ctx.tier == "quick"
     quiet_deprecations()
+    WORKDIR[0] = ctx.work
     rng = ctx.rng
     known_open = ctx.known_open(KNOWN)
     ctx.assumptions += [
@@ -1235,6 +1449,10 @@ def run(ctx):
             plan[i]["keep"] = True
             if plan[i]["op"] == "pickle":
                 plan[i]["op"] = "copy"
+        if label == "reread":                  # the SAME object must be re-read: in-place input forms only
+            for st in plan:
+                if st["op"] == "read" and st.get("via") not in INPLACE_VIAS:
+                    st["via"] = "iter"
         called[plan[-1]["op"]] = called.get(plan[-1]["op"], 0) + 1
         exp = expectations(path, tables)
         n_replayed += 1
@@ -1288,7 +1506,7 @@ def run(ctx):
             one(path, conc, False, "edge")
         # re-read: the derivation is taken and kept aside, the SAME object is re-read (read / qread), the
         # derivation is taken again from the new content; the kept one is checked as documented
-        if e["op"] in DERIVE and (e["op"] == "reverse" or idx % 3 == 0):
+        if e["op"] in DERIVE and (e["op"] == "reverse" or idx % (3 if quick else 6) == 0):
             rs = read_edges[e["_f"]]
             r = rs[idx % len(rs)]
             again = by_op[r["_t"]].get(e["op"])
@@ -1304,9 +1522,9 @@ def run(ctx):
         describe(concretize_step(x, Conc(canonical=True), rng, [])) for x in paths[mid["_f"]] + [mid]))
 
     # 2b. random walks from DB() (long histories; queries checked after every call)
-    nwalks, wlen = (160, 12) if quick else (900, 25)
+    nwalks, wlen = (160, 12) if quick else (600, 25)
     w8 = {"insert": 6, "read": 2, "reverse": 3, "copy": 1, "facet": 3, "restrict_p": 1, "filter_t": 1,
-          "read_fails": 2, "qread_fails": 2}
+          "read_fails": 2, "qread_fails": 2, "dumpread": 2, "dumprevread": 2}
     for w in range(nwalks):
         if nviol[0] >= 5:
             break
@@ -1316,7 +1534,7 @@ def run(ctx):
     # 2b'. size stress through the replay leg: blown-up concretizations of abstract behaviours
     shapes = [dict(np=3334, nt=3, pad=0), dict(np=11, nt=334, pad=0), dict(np=40, nt=5, pad=4096),
               dict(np=257, nt=33, pad=129), dict(np=1000, nt=17, pad=0), dict(np=2, nt=1001, pad=33)]
-    nbig = 3 if quick else 12
+    nbig = 3 if quick else 10
     bigs = []
     for b in range(nbig):
         if nviol[0] >= 5:
@@ -1382,7 +1600,7 @@ def run(ctx):
             ctx.sample("known-finding behaviour: " + " ; ".join(describe(s) for s in case["plan"]) + "  -> " + msg[:160])
 
     # 3. code -> spec: recorded histories validated by TLC
-    ntr, nops, maxpk = (180, 14, 12) if quick else (1600, 30, 30)
+    ntr, nops, maxpk = (180, 14, 12) if quick else (1200, 30, 30)
     batch = 400
     recorded = [record_history(rng, nops, maxpk if i % 3 else 5) for i in range(ntr)]
     plans = [p for p, _ in recorded]
@@ -1454,6 +1672,7 @@ def brief(ev):
 def replay(ctx, case):
     import random
     quiet_deprecations()
+    WORKDIR[0] = ctx.work
     known_open = ctx.known_open(KNOWN)
     plan = case.get("plan")
     if case["kind"] == "path":
